@@ -386,7 +386,9 @@ def check_entity_to_dict(ctx, w, rng, log):
             elif r < 0.5: opts['only'] = ' '.join(rng.sample(allnames, 2)) if len(allnames) > 1 else allnames[0]
             o = w.obj(ename, raw)
             try:
-                got = {k: norm_real(v) for k, v in o.to_dict(**opts).items()}
+                real_d = o.to_dict(**opts)
+                if not opts['related_objects']: queue_cells('entity', w, ename, raw, real_d)
+                got = {k: norm_real(v) for k, v in real_d.items()}
             except Exception as e:
                 got = 'raised ' + type(e).__name__
             only = opts.get('only'); only = only.split() if isinstance(only, str) else only
@@ -430,6 +432,25 @@ def classify_bag_diff(w, given, related, got, exp):
     return out
 
 walk_queue = []
+cell_queue = []
+
+def queue_cells(which, w, ename, raw, real_dict):
+    """relationship cells of one reported object, for the Lean cell model (Model/Report.lean): (request, real cell in the model's shape)"""
+    if len(cell_queue) > 2500 or not isinstance(real_dict, dict): return
+    for n, real in real_dict.items():
+        try: v = w.value(ename, raw, n)
+        except KeyError: continue
+        if v[0] == 'scalar': continue
+        cols = w.pk_cols(v[1])
+        S = lambda t: [str(x) for x in t]
+        if v[0] == 'one':
+            val = {'one': None if v[2] is None else S(v[2])}
+            r = {'null': True} if real is None else {'tuple': S(real)} if isinstance(real, (tuple, list)) else {'single': str(real)}
+        else:
+            val = {'many': [S(k) for k in v[2]]}
+            if which == 'bag': r = {'keys': sorted(json.dumps({'text': x} if cols > 1 else {'single': str(x)}) for x in real)}
+            else: r = {'tuples': sorted(json.dumps(S(x)) for x in real)} if cols > 1 else {'keys': sorted(json.dumps({'single': str(x)}) for x in real)}
+        cell_queue.append(({'op': 'cell', 'which': which, 'cols': cols, 'val': val}, r, [ename, list(map(str, raw)), n]))
 
 def check_bag(ctx, w, rng, log, decode_queue):
     objs = [(en, raw) for en in 'ABMD' for raw in sorted(w.S[en], key=repr)]
@@ -479,6 +500,9 @@ def check_bag(ctx, w, rng, log, decode_queue):
                 if w.pk_cols(en) > 1:
                     for k in d:
                         if isinstance(k, str) and len(decode_queue) < 4000: decode_queue.append((k, en))
+        if isinstance(got, dict) and via != 'to_json':
+            for en, raw in given:
+                queue_cells('bag', w, en, raw, got.get(en, {}).get(w.bag_key(en, raw)))
         if got == exp: continue
         if not isinstance(got, dict):
             ctx.violation('serialization.%s raised' % via, dict(scenario(w, log), given=[[en, list(r)] for en, r in given]), observed=got, expected=exp, key='bag:%s' % got)
@@ -809,6 +833,21 @@ def state_oracle(ctx):
             check_bag(ctx, w, rng, log, decode_queue)
         check_pickle(ctx, w, rng, log)
         w.db.disconnect()
+    if ctx.driver.ok and cell_queue:
+        outs = ctx.driver('C31', [q[0] for q in cell_queue])
+        for (req, real, where), o in zip(cell_queue, outs):
+            ctx.case(['cell', req], kind='tie:cell-' + req['which'], nontrivial='many' in req['val'] or req['val'].get('one') is not None)
+            m = o.get('ok')
+            if isinstance(m, dict) and 'keys' in m: m = {'keys': sorted(json.dumps(k) for k in m['keys'])}
+            if isinstance(m, dict) and 'tuples' in m: m = {'tuples': sorted(json.dumps(t) for t in m['tuples'])}
+            ctx.count('tie:cell:' + (next(iter(m)) if isinstance(m, dict) else 'error'))
+            back = o.get('back')
+            want = req['val'].get('many', req['val'].get('one'))
+            if m != real:
+                ctx.divergence('model cell (bagCell / entityCell) and the value the real to_dict reports disagree', {'where': where, 'request': req}, model=o.get('ok', o), impl=real)
+            elif want is not None and (sorted(map(json.dumps, back)) != sorted(map(json.dumps, want)) if 'many' in req['val'] else back != want):
+                ctx.divergence('reading the model cell back (unRep) does not give the current value', {'where': where, 'request': req}, model=back, impl=want)
+    del cell_queue[:]
     if ctx.driver.ok and walk_queue:
         outs = ctx.driver('C31', [q[0] for q in walk_queue])
         for (req, real, objs, via), o in zip(walk_queue, outs):
